@@ -85,4 +85,9 @@ theorem C01_parse_measure_monotone {α : Type} (limit : Nat) (p : Prog α) (s : 
     mu (run limit p s).2 ≤ mu s :=
   run_mu_le limit p s
 
+/-! non-vacuity: the model really parses (kernel-evaluated), including a repo fuzz-style input `{[` -/
+example : (parseQuery 0 [123, 97, 125]).isOk = true := by decide
+example : (parseQuery 0 [123, 91]).isOk = false := by decide
+example : (parseSchema 0 [116,121,112,101,32,65,123,97,58,66,125]).isOk = true := by decide
+
 /-! ## END parser section -/
